@@ -28,6 +28,15 @@ pub fn vx_unreached() -> !
 #[verifier::external_body]
 pub fn opaque_string() -> String { String::new() }
 
+// ---- specifications of std functions that vstd lacks. They are weak on purpose (true of the std functions, not complete):
+// their only role is to let code that uses these functions be extracted and checked against its contract.
+pub assume_specification<T: Ord>[ <[T]>::sort_unstable ](s: &mut [T])
+    ensures final(s)@.len() == old(s)@.len(), final(s)@.to_multiset() == old(s)@.to_multiset();
+pub assume_specification<T: PartialEq, A: core::alloc::Allocator>[ Vec::<T, A>::dedup ](v: &mut Vec<T, A>)
+    ensures final(v)@.len() <= old(v)@.len();
+pub assume_specification<T: Copy>[ Option::<&T>::copied ](o: Option<&T>) -> (r: Option<T>)
+    ensures r == (match o { Some(x) => Some(*x), None => None });
+
 /// R3h: verified stand-ins for `slice.iter().any(f)` and `slice.contains(x)` (same evaluation order and short-circuiting as
 /// the std functions; the specification speaks about the closure's own contract)
 pub fn vx_any<T, F: Fn(&T) -> bool>(s: &[T], f: F) -> (r: bool)
